@@ -413,7 +413,7 @@ def random_history(rng, nmax=30):
             p = hashes[i - 1]                     # long chains
         else:
             p = rng.choice(hashes[:i])            # forks
-        hdrs[h] = (p, rng.choice([1, 1, 1, 2, 5]))
+        hdrs[h] = (p, rng.choice([1, 1, 1, 2, 5, 0] if style > 0.8 else [1, 1, 1, 2, 5]))
     order = list(hashes)
     m = rng.random()
     if m < 0.4:
@@ -445,28 +445,35 @@ def random_history(rng, nmax=30):
     return anchor, rng.random() < 0.5, hdrs, steps
 
 
-def _fix_locks(hist):
-    """clamp every lock index to the length of the chain the implementation reports at that point, unless it is meant to
-    overshoot (kept with probability given by the generator) — evaluated on the reference-free impl output"""
-    return hist
-
-
 def gen(ctx, emit):
     rng = ctx.rng
     E = lambda hist: emit(show_op(*hist), "history")  # noqa: E731
     # boundary corpus: DESIGN §8 row 12 and relatives are in corpus/C15.txt; here the systematic part
     for n in (1, 2, 3):
         for hist in small_histories(n):
-            if n < 3 or ctx.thorough or rng.random() < 0.35:
-                E(hist)
-    pool4 = None
+            E(hist)
     if ctx.thorough:
         for hist in small_histories(4):
             E(hist)
+        # every forest on 5 and 6 headers (all parent functions), the other coordinates drawn at random
+        for n in (5, 6):
+            labels = list(range(1, n + 1))
+            comps = list(_compositions(n))
+            for parents in itertools.product(*[[ANCHOR, UNKNOWN] + [j for j in labels if j != i] for i in labels]):
+                par = dict(zip(labels, parents))
+                if not _acyclic(par):
+                    continue
+                hdrs = {h: (par[h], rng.choice([1, 2, 5])) for h in labels}
+                batches, k = [], 0
+                for c in rng.choice(comps):
+                    batches.append(labels[k:k + c])
+                    k += c
+                hist = (ANCHOR, rng.random() < 0.5, hdrs, [("A", b, rng.sample(b, len(b))) for b in batches])
+                E(with_lock(rng, hist) if rng.random() < 0.25 else hist)
     else:
         # a seeded sample of the forests on 4 headers: draw the coordinates directly
         labels = [1, 2, 3, 4]
-        for _ in range(ctx.n(5000, 0)):
+        for _ in range(ctx.n(20000, 0)):
             while True:
                 par = {i: rng.choice([ANCHOR, UNKNOWN] + [j for j in labels if j != i]) for i in labels}
                 if _acyclic(par):
@@ -478,9 +485,8 @@ def gen(ctx, emit):
                 batches.append(labels[k:k + c])
                 k += c
             E((ANCHOR, rng.random() < 0.5, hdrs, [("A", b, rng.sample(b, len(b))) for b in batches]))
-    del pool4
     # small forests with interleaved locks
-    for _ in range(ctx.n(3000, 60000)):
+    for _ in range(ctx.n(10000, 60000)):
         n = rng.choice([2, 3, 3, 4, 4, 5])
         labels = list(range(1, n + 1))
         while True:
@@ -500,7 +506,7 @@ def gen(ctx, emit):
             st.insert(rng.randint(1, len(st)), ("A", [rng.choice(labels)], []))
         E(with_lock(rng, hist))
     # random histories of up to 30 headers with forks, orphans, duplicates and locks
-    for _ in range(ctx.n(2000, 40000)):
+    for _ in range(ctx.n(3000, 40000)):
         E(random_history(rng, 30))
     if ctx.thorough:
         for _ in range(ctx.n(0, 3000)):
